@@ -198,13 +198,9 @@ func (p *Path) decide(c *Term) bool {
 		engErr("decision prefix mismatch at %d: bad boolean decision %d", i, d.V)
 	}
 	p.fresh = true
-	rt := p.check(c)
-	var rf SatResult
-	if rt == Unsat {
-		rf = Sat // pc is satisfiable by invariant, so the other side must be
-	} else {
-		rf = p.check(Not(c))
-	}
+	p.syncPC()
+	p.queries += 2
+	rt, rf := p.sol.CheckBoth(c)
 	if rt == Unknown || rf == Unknown {
 		p.eng.noteUnknownBranch()
 	}
@@ -389,8 +385,11 @@ func (p *Path) assertTerm(c *Term, name string, where string) {
 			p.eng.noteInconclusive(fmt.Sprintf("assert %q: solver unknown (%s)", name, where))
 		}
 	} else {
-		// this assertion already has a confirmed new violation; do not re-query
-		held = false
+		// this assertion already has a recorded counterexample: only decide
+		// whether it holds on this path (no model needed)
+		if p.check(extra...) != Unsat {
+			held = false
+		}
 	}
 	// (b) each known finding: ¬A ∧ Pi
 	for _, f := range p.findings {
